@@ -1020,10 +1020,10 @@ func TestC16(t *testing.T) {
 	c.Assume("async-packet and alias keys are checked on chain-generatable identifiers only (<client type>-<n>, channel-<n>): they carry no separator by design (DESIGN F10)")
 	c.Assume("the v1 next-send sequence is stored under the v2 key of the channel identifier; it is treated as the (kind, client) tuple of that identifier, channel identifiers being unique per chain")
 	c.Assume("counterparty registration may initialise the target client's own v2 nextSequenceSend key; it is allow-listed for that operation only")
-	c.Floor("keys_generated", 30000)
-	c.Floor("keys_v1/commit", 3000)
-	c.Floor("keys_v2/receipt", 1000)
-	c.Floor("keys_v2/async", 100)
+	c.Floor("keys_generated", 200000)
+	c.Floor("keys_v1/commit", 20000)
+	c.Floor("keys_v2/receipt", 25000)
+	c.Floor("keys_v2/async", 2500)
 	c.Floor("iterations_run", 500)
 	c.Floor("iteration_entries_returned", 2000)
 	c.Floor("readbacks", 2000)
